@@ -11,7 +11,7 @@ def run(ctx):
     scratch = vlib.scratch_dir("C03")
     env = vlib.scrub_env(scratch=scratch)
     nsh = vlib.NCPU * 4
-    levels = "L1,L4,L5" if tier == "quick" else "L1,L2,L3,L4,L5"
+    levels = "L1,L4,L5,L6" if tier == "quick" else "L1,L2,L3,L4,L5,L6"
     deadline = ctx["deadline"] or (400 if tier == "quick" else 2400)
     args = [["--tier", tier, "--levels", levels, "--corpus", c01.corpus_arg(), "--shard", i, "--nshards", nsh] for i in range(nsh)]
     res = vlib.run_shards(exe, args, env, timeout=deadline, label="xmem")
